@@ -64,7 +64,9 @@ class C01(Prop):
         else:
             k = ge + rng.randint(0, 2)
         return {"nbits": nbits, "C": C, "N": N, "splits": splits, "g": g, "s": s, "n": n, "k": k,
-                "dseed": rng.randrange(1 << 30), "none_n": bool(n == nmax and rng.random() < 0.5)}
+                "dseed": rng.randrange(1 << 30), "none_n": bool(n == nmax and rng.random() < 0.5),
+                # a plan is a description of a read: creating it and iterating it need not be adjacent
+                "defer": rng.choice((None, None, None, "block", "plan"))}
 
     def corpus(self):
         base = {"nbits": 8, "C": 1, "dseed": 1, "none_n": False}
@@ -117,8 +119,13 @@ class C01(Prop):
             return {"blocks": [], "err": {"cls": "nsamples-mismatch", "after": 0, "phase": "open"}}
         n = None if case["none_n"] else case["n"]
         try:
-            for nsamps_r, ii, arr in fil.read_plan(gulp=case["g"], start=case["s"], nsamps=n,
-                                                   skipback=case["k"], quiet=True):
+            plan = fil.read_plan(gulp=case["g"], start=case["s"], nsamps=n, skipback=case["k"], quiet=True)
+            if case.get("defer") == "block" and case["N"] >= 1:
+                fil.read_block(case["N"] - 1, 1)        # the reader is used for something else before the plan is iterated
+            elif case.get("defer") == "plan":
+                other = fil.read_plan(gulp=3, start=case["N"] // 2, nsamps=None, quiet=True)
+                next(iter(other), None)                 # ... e.g. a second plan, prepared and started in between
+            for nsamps_r, ii, arr in plan:
                 obs["blocks"].append({"nr": int(nsamps_r), "ii": int(ii),
                                       "vals": [int(x) for x in np.array(arr, copy=True)]})
         except Exception as e:  # noqa: BLE001
